@@ -1,4 +1,18 @@
-"""Function-body specs for cnvlib/segmentation/__init__.py (property C03): one iteration of transfer_fields' aggregation loop."""
+"""Function-body specs for cnvlib/segmentation/__init__.py (property C03): one iteration of transfer_fields' aggregation loop,
+_do_segmentation's weight mask per row, transfer_fields' endpoint stretch, drop_outliers per row.
+
+Mutations tried with tools/mut_fn.sh (scratch copy of the sources, re-translation, rebuild of the Proofs file):
+  FnSegWeightMask  `filtered_cn["weight"] < min_weight` -> `<= min_weight`              KILLED (source_weight_mask no longer proves)
+                   `(filtered_cn["weight"] == 0)` -> `(... <= 0)`                       KILLED
+  FnSegStretch     first store `= bins_start` -> `= bins_end`                           KILLED (source_stretch_rows)
+                   `iat[-1] == cnarr.chromosome.iat[-1]` -> `!=`                        KILLED (source_stretch_rows)
+                   second store `iloc[-1, ..("end")]` -> `iloc[0, ..("end")]`           translator REFUSES (the returned cell
+                                                                                        iloc[-1]['end'] is no longer assigned)
+                   second store `..get_loc("end")` -> `..get_loc("start")`              translator REFUSES (rows 0 and -1 of one
+                                                                                        column: the same cell in a one-row table)
+  FnSegOutliers    `return cnarr[~outlier_mask]` -> `return cnarr[outlier_mask]`         KILLED (source_drop_outliers)
+                   drop_outliers' `if not len(cnarr):` -> `if len(cnarr):`               KILLED
+"""
 MODULES = {
     # ONE ITERATION of `for i, bin_idx in enumerate(iter_slices(cdata, segments.data, "outer", True)):` -- what row i of
     # the gene / weight / depth columns becomes, as a function of the selection's aggregates (opaque inputs: the summed
@@ -17,5 +31,51 @@ MODULES = {
                      ('bin_depths[bin_idx].mean()', 'Q', 'plain_mean'),
                      ('[g for g in pd.unique(bin_genes[bin_idx]) if g not in ignore]', 'LS', 'kept_genes')],
              ret=['S', 'Q', 'Q']),
+    ]),
+    # _do_segmentation's weight rule, per row (fragment `if min_weight: weight_too_low = ... else: weight_too_low = ...`):
+    # whether the bin is masked out as "weight too low"; the bin's weight is an optional number (NaN = None), `.isna()`.
+    # (Proofs/FnSegWeightMask.v: C03_source_weight_mask -- equals Model/Segment.v weight_too_low on the bin's weight)
+    # mutations that break the tie: `< min_weight` -> `<= min_weight`; `== 0` -> `<= 0`   (both KILLED, see docstring)
+    'FnSegWeightMask': ('cnvlib/segmentation/__init__.py', [
+        dict(name='_do_segmentation', coq='fn_weight_too_low',
+             py_params=['cnarr', 'method', 'diploid_parx_genome', 'threshold', 'variants', 'skip_low', 'skip_outliers',
+                        'min_weight', 'save_dataframe', 'rscript_path', 'smooth_cbs'],
+             fragment=dict(first='if min_weight:\n    weight_too_low', last='if min_weight:\n    weight_too_low'),
+             returns=['weight_too_low'],
+             params=[('min_weight', 'Q'), ("filtered_cn['weight']", 'OQ', 'weight')],
+             ret='B'),
+    ]),
+    # transfer_fields' endpoint stretch (fragment: the two `if <segment's chromosome> == <bins' chromosome>:` statements with
+    # their cell stores `segments.data.iloc[0, ...get_loc("start")] = bins_start`, `segments.data.iloc[-1, ...get_loc("end")] =
+    # bins_end`): the first row's start and the last row's end afterwards.  The four chromosome names are opaque strings.
+    # (Proofs/FnSegStretch.v: C03_source_stretch_rows / _transfer -- the model's raw_stretch_lo / raw_stretch_hi)
+    # mutations that break the tie: `= bins_start` -> `= bins_end` at the first store; `iat[-1] == cnarr` -> `iat[-1] != cnarr`;
+    # `iloc[-1, ` -> `iloc[0, ` at the second store   (all KILLED)
+    'FnSegStretch': ('cnvlib/segmentation/__init__.py', [
+        dict(name='transfer_fields', coq='fn_stretch',
+             py_params=['segments', 'cnarr', 'ignore'],
+             fragment=dict(first='if segments.chromosome.iat[0] == bins_chrom', last='if segments.chromosome.iat[-1] '),
+             returns=["segments.data.iloc[0]['start']", "segments.data.iloc[-1]['end']"],
+             params=[('segments.chromosome.iat[0]', 'S', 'seg_chrom_first'), ('bins_chrom', 'S'),
+                     ('segments.chromosome.iat[-1]', 'S', 'seg_chrom_last'),
+                     ('cnarr.chromosome.iat[-1]', 'S', 'bins_chrom_last'),
+                     ('bins_start', 'Z'), ('bins_end', 'Z'),
+                     ("segments.data.iloc[0]['start']", 'Z', 'first_start'),
+                     ("segments.data.iloc[-1]['end']", 'Z', 'last_end')],
+             ret=['Z', 'Z']),
+    ]),
+    # drop_outliers, the WHOLE function read per row as "the bin is kept" (row_filter): an empty table is returned as it is,
+    # otherwise `return cnarr[~outlier_mask]`; the mask (np.concatenate of smoothing.rolling_outlier_quantile per chromosome) and
+    # its sum are opaque inputs, the log-only `if n_outliers:` is dropped.
+    # (Proofs/FnSegOutliers.v: C03_source_drop_outliers -- on a table with a row it is `negb outlier`, the second factor of
+    # Model/Segment.v survives)
+    # mutations: `return cnarr[~outlier_mask]` -> `return cnarr[outlier_mask]` KILLED; `if not len(cnarr):` -> `if len(cnarr):` KILLED
+    'FnSegOutliers': ('cnvlib/segmentation/__init__.py', [
+        dict(name='drop_outliers', coq='fn_drop_outliers_keep', py_params=['cnarr', 'width', 'factor'], row_filter='cnarr',
+             params=[('len(cnarr)', 'Z', 'nrows'),
+                     ("np.concatenate([smoothing.rolling_outlier_quantile(subarr['log2'], width, 0.95, factor) "
+                      "for _chrom, subarr in cnarr.by_chromosome()])", 'B', 'outlier'),
+                     ('outlier_mask.sum()', 'Z', 'n_outliers')],
+             ret='B'),
     ]),
 }
